@@ -72,6 +72,9 @@ def run_variant(v):
             env = dict(os.environ, VERIF_REPO=tree, VERIF_EVIDENCE_DIR=ev)
             p = subprocess.run([os.path.join(VERIF, 'check'), v['property']], capture_output=True, text=True, env=env, cwd=VERIF, timeout=900)
             out = p.stdout + p.stderr
+            if v.get('expect', 'fire') == 'limitation':
+                ok = True       # a known false alarm (or analysis error) on a behaviour-preserving refactoring: reported, see STATUS.json
+                return dict(v, result='LIMITATION' if p.returncode != 0 else 'OK', rc=p.returncode, report=next((l for l in out.split('\n') if ' rule ' in l or 'ANALYSIS-ERROR' in l), '')[:200])
             if v.get('expect', 'fire') == 'silent':
                 ok = p.returncode == 0
             else:
@@ -107,6 +110,23 @@ def run_variant(v):
         shutil.rmtree(tmp, ignore_errors=True)
 
 
+def refactor_variants():
+    """behaviour-preserving refactorings written by independent sub-agents (selftest/refactors/<id>/patch.diff).  STATUS.json says,
+    per refactoring and property, whether the check is silent on it today; those must stay silent.  The ones that still raise an
+    alarm are listed there as limitations (DESIGN.md section 5): they are replayed and reported, never counted as a pass."""
+    out = []
+    rd = os.path.join(HERE, 'refactors')
+    sp = os.path.join(rd, 'STATUS.json')
+    if not os.path.exists(sp):
+        return out
+    status = json.load(open(sp))
+    for rid, st in sorted(status.items()):
+        for prop, verdict in sorted(st.get('replay', {}).items()):
+            out.append({'id': 'REFACTOR-%s-%s' % (rid, prop), 'property': prop, 'patch': 'selftest/refactors/%s/patch.diff' % rid,
+                        'expect': 'silent' if verdict == 'silent' else 'limitation', 'note': 'behaviour-preserving refactoring by a sub-agent'})
+    return out
+
+
 def seeded_variants():
     """changes written by independent sub-agents (seeded/<id>/): each must be reported by the check named in its meta"""
     out = []
@@ -137,18 +157,20 @@ def main(argv):
             jout = argv[i + 1]; i += 2
         else:
             i += 1
-    variants = json.load(open(os.path.join(HERE, 'variants.json'))) + seeded_variants()
+    variants = json.load(open(os.path.join(HERE, 'variants.json'))) + seeded_variants() + refactor_variants()
     if only:
         variants = [v for v in variants if v['id'].startswith(only)]
     with ThreadPoolExecutor(max_workers=jobs) as ex:
         res = list(ex.map(run_variant, variants))
-    bad = [r for r in res if r['result'] != 'OK']
+    bad = [r for r in res if r['result'] not in ('OK', 'LIMITATION')]
     for r in res:
         print('%-7s %-6s %-28s %s' % (r['result'], r['expect'], r['id'], (r.get('report') or r.get('detail') or '')[:150].replace('\n', ' ')))
     fire = [r for r in res if r['expect'] == 'fire']
     sil = [r for r in res if r['expect'] == 'silent']
+    lim = [r for r in res if r['expect'] == 'limitation']
     summary = {'mutants_killed': sum(r['result'] == 'OK' for r in fire), 'mutants_total': len(fire),
                'refactors_silent': sum(r['result'] == 'OK' for r in sil), 'refactors_total': len(sil),
+               'known_false_alarms_on_refactorings': sum(r['result'] == 'LIMITATION' for r in lim), 'limitation_runs': len(lim),
                'failures': [r['id'] for r in bad]}
     print(json.dumps(summary))
     if jout:
